@@ -21,6 +21,17 @@ import (
 
 type ID struct{ Mid, Rid uint64 }
 
+// -wide: random parts are spread over the whole uint64 range, order preserved (table for r <= 6), as the
+// proxy's random IDs are: comparisons must be real three-way comparisons, differences wrap around
+var wide = flag.Bool("wide", false, "")
+
+func rid(r uint64) uint64 {
+	if *wide && r >= 1 && r <= 6 {
+		return [...]uint64{0, 0x1000000000000001, 0x5000000000000002, 0x9000000000000003, 0xE000000000000004, 0xF000000000000005, 0xFF00000000000006}[r]
+	}
+	return r
+}
+
 type Q struct {
 	Limit     int    `json:"limit"`
 	FPI       int    `json:"fpi"`
@@ -64,7 +75,7 @@ func emit(v any) {
 func docs(ids []ID) []env.Doc {
 	out := make([]env.Doc, len(ids))
 	for i, x := range ids {
-		out[i] = env.Doc{MID: x.Mid, RID: x.Rid, Tok: map[string][]string{}}
+		out[i] = env.Doc{MID: x.Mid, RID: rid(x.Rid), Tok: map[string][]string{}}
 	}
 	return out
 }
@@ -72,7 +83,7 @@ func docs(ids []ID) []env.Doc {
 func pairs(ids []ID) [][2]uint64 {
 	out := make([][2]uint64, 0, len(ids))
 	for _, x := range ids {
-		out = append(out, [2]uint64{x.Mid, x.Rid})
+		out = append(out, [2]uint64{x.Mid, rid(x.Rid)})
 	}
 	return out
 }
